@@ -16,8 +16,9 @@ def _check_batches(ctx, orc, n):
     return ok
 
 
-def h_budget(ctx, n, r0, dr, nswp, with_cache):
-    """Symbolic budget m >= 1 (unbounded integer); oracle values arbitrary."""
+def h_budget(ctx, n, r0, dr, nswp, with_cache, prefill=0, with_e=False):
+    """Symbolic budget m >= 1 (unbounded integer); oracle values arbitrary.
+    prefill: number of index -> value pairs already in the cache on entry."""
     d = len(n)
     m = ctx.integer('m')
     ctx.assume(ctx.ge(m, 1))
@@ -25,8 +26,31 @@ def h_budget(ctx, n, r0, dr, nswp, with_cache):
     Y0 = simple_Y0(n, r0)
     info = {}
     cache = {} if with_cache else None
+    pre = {}
+    if with_cache and prefill:
+        from symtt.ref import multi_indices
+        for key in multi_indices(n)[:prefill]:
+            orc(np.array([key]))
+        orc.batches.clear()
+        orc.calls = 0
+        pre = dict(orc.values)
+        cache.update({k: v for k, v in pre.items()})
+    ekw = {}
+    if with_e:
+        e = ctx.real('e')
+        ctx.assume(ctx.gt(e, 0))
+        ekw = {'e': e}
+    # reference: the unconstrained run (same admissible choices) gives the sizes of the
+    # successive evaluation batches; a budget must cut exactly before the first batch that does not fit
+    ref_orc = Oracle(ctx, fresh=True, n=n)
+    ref_orc.values = dict(orc.values)
     with stubs_installed(ctx, 'first'):
-        Y = teneva.cross(orc, Y0, m=m, nswp=nswp, dr_min=dr[0], dr_max=dr[1], info=info, cache=cache)
+        teneva.cross(ref_orc, Y0, nswp=nswp, dr_min=dr[0], dr_max=dr[1], info={},
+                     cache=(dict(pre) if with_cache else None))
+    sizes = [len(B) for B in ref_orc.batches]
+    orc.values = ref_orc.values
+    with stubs_installed(ctx, 'first'):
+        Y = teneva.cross(orc, Y0, m=m, nswp=nswp, dr_min=dr[0], dr_max=dr[1], info=info, cache=cache, **ekw)
     ctx.claim('well_formed_same_shape', well_formed(Y, n))
     ctx.claim('finite', finite(ctx, Y))
     ctx.claim('batches_integer_width_d_in_bounds', _check_batches(ctx, orc, n))
@@ -34,11 +58,18 @@ def h_budget(ctx, n, r0, dr, nswp, with_cache):
     evaluated = sum(len(B) for B in orc.batches)
     ctx.claim('info_m_counts_evaluations', info['m'] == evaluated)
     ctx.claim('budget_respected', ctx.le(evaluated, m))
-    ctx.claim('documented_stop', info['stop'] in ('m', 'nswp', 'conv'))
+    ctx.claim('documented_stop', info['stop'] in (('m', 'nswp', 'conv', 'e') if with_e else ('m', 'nswp', 'conv')))
     if info['stop'] == 'nswp':
         ctx.claim('nswp_exact', info['nswp'] == nswp)
     if info['stop'] == 'm':
-        ctx.claim('m_only_when_next_batch_would_exceed', ctx.gt(evaluated + 1, m - _max_batch(n, r0, dr, nswp)))
+        # the batches answered are a prefix of the unconstrained sequence and the next one does not fit
+        J = len(orc.batches)
+        pref = sum(sizes[:J])
+        ctx.claim('m_prefix_of_unconstrained_run', [len(B) for B in orc.batches] == sizes[:J] and J < len(sizes))
+        if J < len(sizes):
+            ctx.claim('m_only_when_next_batch_would_exceed', ctx.gt(pref + sizes[J], m))
+    elif info['stop'] in ('nswp', 'conv') and not with_e:
+        ctx.claim('unconstrained_when_budget_suffices', [len(B) for B in orc.batches] == sizes and ctx.le(sum(sizes), m))
     if with_cache:
         keys = set()
         dup = False
@@ -47,8 +78,8 @@ def h_budget(ctx, n, r0, dr, nswp, with_cache):
                 t = tuple(int(x) for x in i)
                 dup = dup or t in keys
                 keys.add(t)
-        ctx.claim('cache_each_index_once', not dup)
-        ctx.claim('cache_holds_evaluated_pairs', set(cache.keys()) == keys and
+        ctx.claim('cache_each_index_once', not dup and not (keys & set(pre)))
+        ctx.claim('cache_holds_evaluated_pairs', set(cache.keys()) == keys | set(pre) and
                   all(bool(ctx.eq(cache[k], orc.values[k])) for k in keys))
     ctx.canary('canary', ctx.gt(evaluated, m))
 
@@ -59,22 +90,36 @@ def _max_batch(n, r0, dr, nswp):
     return r * r * max(n)
 
 
-def h_func_none(ctx, n, r0, nswp):
+def h_func_none(ctx, n, r0, nswp, with_e=False, with_vld=False):
     """Objective returns None at its k-th call (symbolic k)."""
     k = ctx.integer('k')
     ctx.assume(ctx.ge(k, 1))
     orc = Oracle(ctx, fresh=True, n=n, none_at=k)
     Y0 = simple_Y0(n, r0)
     info = {}
+    kw = {}
+    if with_e:
+        e = ctx.real('e')
+        ctx.assume(ctx.gt(e, 0))
+        kw['e'] = e
+    if with_vld:
+        from symtt.ref import multi_indices, ref_get
+        Iv = np.array(multi_indices(n)[:2])
+        yv = vec(ctx, 'yv', 2)
+        ctx.assume(ctx.gt(yv[0], 0))
+        kw.update({'I_vld': Iv, 'y_vld': yv})
     with stubs_installed(ctx, 'first'):
-        Y = teneva.cross(orc, Y0, nswp=nswp, dr_min=0, dr_max=0, info=info)
+        Y = teneva.cross(orc, Y0, nswp=nswp, dr_min=0, dr_max=0, info=info, **kw)
     ctx.claim('well_formed_same_shape', well_formed(Y, n))
     ctx.claim('finite', finite(ctx, Y))
+    if with_vld:
+        d2 = sum(((ref_get(Y, tuple(i)) - yv[j]) ** 2 for j, i in enumerate(Iv)), 0)
+        ctx.claim('e_vld_is_error_of_returned_tensor', ctx.eq(info['e_vld'] * info['e_vld'] * sumsq(yv), d2))
     answered = sum(len(B) for j, B in enumerate(orc.batches) if not (info['stop'] == 'func' and j == len(orc.batches) - 1))
     ctx.claim('info_m_counts_evaluations', info['m'] == answered)
     ctx.claim('stop_func_iff_none_returned', ctx.any_([
         ctx.all_([info['stop'] == 'func', ctx.eq(k, orc.calls)]),
-        ctx.all_([info['stop'] == 'nswp', ctx.gt(k, orc.calls), info['nswp'] == nswp])]))
+        ctx.all_([info['stop'] in (('nswp', 'e') if with_e else ('nswp',)), ctx.gt(k, orc.calls)])]))
 
 
 def h_callback(ctx, n, r0, nswp):
@@ -157,6 +202,10 @@ def instances(tier):
                         'opts': G})
     for n, r0, nswp in [([2, 2], 1, 1), ([2, 2, 2], 1, 1)] + ([] if quick else [([2, 2], 2, 2)]):
         out.append({'func': 'h_func_none', 'params': {'n': n, 'r0': r0, 'nswp': nswp}, 'opts': G})
+    out.append({'func': 'h_func_none', 'params': {'n': [2, 2], 'r0': 1, 'nswp': 2, 'with_e': True}, 'opts': G})
+    out.append({'func': 'h_func_none', 'params': {'n': [2, 2], 'r0': 1, 'nswp': 1, 'with_vld': True}, 'opts': G})
+    out.append({'func': 'h_budget', 'params': {'n': [2, 2], 'r0': 1, 'dr': [0, 0], 'nswp': 1, 'with_cache': True, 'prefill': 2}, 'opts': G})
+    out.append({'func': 'h_budget', 'params': {'n': [2, 2], 'r0': 1, 'dr': [0, 0], 'nswp': 2, 'with_cache': False, 'with_e': True}, 'opts': G})
     for n, r0, nswp in [([2, 2], 1, 2)] + ([] if quick else [([2, 2, 2], 1, 2), ([2, 2], 1, 3)]):
         out.append({'func': 'h_callback', 'params': {'n': n, 'r0': r0, 'nswp': nswp}, 'opts': G})
     out.append({'func': 'h_thresholds', 'params': {'n': [2, 2], 'r0': 1}, 'opts': G})
